@@ -209,9 +209,6 @@ Proof.
     destruct (upto_nul s) eqn:E; [discriminate|]. intros _. rewrite IH by reflexivity. reflexivity.
 Qed.
 
-Lemma cstr_app (s w : bytes) : nul_free s -> cstr (s ++ x00 :: w) = s.
-Proof. intro H. unfold cstr. rewrite upto_nul_app by exact H. reflexivity. Qed.
-
 Lemma nul_free_nil : nul_free [].
 Proof. reflexivity. Qed.
 
@@ -232,6 +229,6 @@ Proof.
   rewrite E.
   destruct (str_flat_size s <=? len ((s ++ [x00]) ++ w)) eqn:Le.
   - rewrite takeN_app_n, dropN_app_n by exact L.
-    rewrite <- (app_nil_r (s ++ [x00])), <- app_assoc. cbn [app]. rewrite cstr_app by exact Hn. reflexivity.
+    rewrite <- (app_nil_r (s ++ [x00])), <- app_assoc. cbn [app]. rewrite upto_nul_app by exact Hn. reflexivity.
   - apply N.leb_gt in Le. rewrite len_app, <- L in Le. lia.
 Qed.
